@@ -780,6 +780,19 @@ class BadReprMgr(Plain):
         raise ValueError("this manager cannot be described")
 
 
+class HookFailure(Exception):
+    pass
+
+
+class BadReprHooked(BadReprMgr):
+    """cannot be described AND its elaborate_context hook fails: two failures for one registration, both to be reported"""
+
+
+@stackscope.elaborate_context.register(BadReprHooked)
+def _elab_bad_repr_hooked(mgr, context):
+    raise HookFailure("hook for the undescribable manager fails as well")
+
+
 class KeyErrCallable:
     def __init__(self):
         self._data = {}
@@ -808,6 +821,9 @@ def run_badchild(req):
                     st.enter_context(m)
                 elif kind == "badrepr":
                     m = BadReprMgr(i)
+                    st.enter_context(m)
+                elif kind == "badrepr_hook":
+                    m = BadReprHooked(i)
                     st.enter_context(m)
                 elif kind == "badattr":
                     # a callable pushed as an exit function whose attribute lookups fail with something else than
@@ -842,6 +858,18 @@ def run_badchild(req):
                 obs.append({"kind": "exit_stack_child_obj", "got": type(c.obj).__name__})
     if nbad and st.error is None:
         obs.append({"kind": "description_failure_reported_nowhere"})
+    if any(k == "badrepr_hook" for k, _m in regs):
+        def leaves(e):
+            if hasattr(e, "exceptions"):
+                for sub in e.exceptions:
+                    for x in leaves(sub):
+                        yield x
+            elif e is not None:
+                yield e
+        got = [type(e).__name__ for e in leaves(st.error)]
+        want = sum(1 for k, _m in regs if k == "badrepr_hook")
+        if got.count("HookFailure") != want:
+            obs.append({"kind": "hook_failure_not_retrievable_from_the_error", "errors": got, "hook_failures_expected": want})
     if not nbad and st.error is not None:
         obs.append({"kind": "error", "exc": repr(st.error)})
     try:
@@ -867,7 +895,80 @@ def run_badchild(req):
     return {"obs": obs, "stats": {"regs": len(regs)}}
 
 
+class SelfPushingStack(ExitStack):
+    """an exit stack that registers methods of ITSELF (roll back on error, log the outcome): an everyday idiom"""
+
+    def __init__(self, n):
+        super().__init__()
+        self.n = n
+
+    def __enter__(self):
+        super().__enter__()
+        for i in range(self.n):
+            self.push(self._rollback_on_error if i % 2 == 0 else self._log_outcome)
+        return self
+
+    def _rollback_on_error(self, *exc):
+        return False
+
+    def _log_outcome(self, *exc):
+        return False
+
+
+def run_selfstack(req):
+    """no hang, no error; one child per registration, none of them unfolding the stack again"""
+    import threading
+    n = req["n"]
+    box = {}
+
+    async def holder():
+        with SelfPushingStack(n) as st:
+            st.callback(cb_fn, 1)
+            await trap("body")
+
+    co = holder()
+    co.send(None)
+
+    def work():
+        try:
+            box["st"] = extract(co)
+        except BaseException as ex:
+            box["raised"] = repr(ex)
+
+    th = threading.Thread(target=work, daemon=True)
+    th.start()
+    th.join(req.get("patience", 30))
+    if th.is_alive():
+        return {"corrupted": "extract() of a frame holding an exit stack that registered %d of its own methods did not return "
+                             "within %d s" % (n, req.get("patience", 30))}
+    obs = []
+    if "raised" in box:
+        return {"obs": [{"kind": "raised", "exc": box["raised"]}], "stats": {}}
+    st = box["st"]
+    ctx = st.frames[0].contexts[0] if st.frames and st.frames[0].contexts else None
+    if st.error is not None:
+        obs.append({"kind": "error", "exc": repr(st.error)[:200]})
+    if ctx is None or len(ctx.children) != n + 1:
+        obs.append({"kind": "exit_stack_children_count", "got": None if ctx is None else len(ctx.children), "exp": n + 1})
+    else:
+        depth = 0
+        c = ctx
+        while c.children and depth < 50:
+            c = c.children[0]
+            depth += 1
+        if depth > 2:
+            obs.append({"kind": "exit_stack_unfolded_inside_itself", "depth": depth})
+    try:
+        str(st)
+    except BaseException as ex:
+        obs.append({"kind": "format_raised", "exc": repr(ex)})
+    co.close()
+    return {"obs": obs, "stats": {"regs": n + 1}}
+
+
 def handle(req):
+    if req["op"] == "ctxtree.selfstack":
+        return run_selfstack(req)
     if req["op"] == "ctxtree.badchild":
         return run_badchild(req)
     op = req["op"]
